@@ -69,6 +69,8 @@ class Engine:
         self.fresh_id = 0
         self.sentinels = {}
         self.sentinel_terms = {}
+        self.batch = False
+        self._pending = []
 
     # ---------------------------------------------------------------- inputs
     def int(self, name, lo=None, hi=None):
@@ -116,7 +118,7 @@ class Engine:
     def choice(self, name, n):
         """a concrete value in range(n) chosen by the solver (complete case split)"""
         v = self.int(name, 0, n - 1)
-        return v.__index__()
+        return self.concretize(v.e, limit=n + 1)
 
     # ---------------------------------------------------------------- solver plumbing
     def add(self, e):
@@ -129,6 +131,8 @@ class Engine:
 
     def assume(self, b):
         """restrict the path to b (symbolic or concrete); infeasible -> path dropped"""
+        if self._pending:
+            self.flush()
         if isinstance(b, SymBool):
             e = z3.simplify(b.e)
             if z3.is_true(e):
@@ -197,7 +201,7 @@ class Engine:
         self.lit[ne.get_id()] = (ne, not d)
         return d
 
-    def concretize(self, e):
+    def concretize(self, e, limit=HASH_SPLIT_MAX):
         """complete case split over the feasible integer values of term e"""
         e = z3.simplify(e)
         if z3.is_int_value(e):
@@ -209,8 +213,8 @@ class Engine:
             if self.branch(e == v):
                 return v
             n += 1
-            if n > HASH_SPLIT_MAX:
-                raise Inconclusive("concretize: more than %d feasible values" % HASH_SPLIT_MAX)
+            if n > limit:
+                raise Inconclusive("concretize: more than %d feasible values" % limit)
 
     # ---------------------------------------------------------------- obligations
     def model_values(self, m=None):
@@ -227,6 +231,16 @@ class Engine:
         exclude: dict finding_id -> SymBool/bool describing the input class of a listed known
         finding; the obligation is then  (not class) => cond, and a hit inside the class is recorded.
         Raises Counterexample on a model of  path and not cond."""
+        if self.batch and not (isinstance(cond, bool) and not cond):
+            ce = _bool_expr(cond)
+            if exclude:
+                ce = z3.Or(ce, *[_bool_expr(c) for c in exclude.values()])
+                for fid in exclude:
+                    self.excluded[fid] = self.excluded.get(fid, 0) + 1
+            self._pending.append((label, ce, detail))
+            return
+        if self._pending:
+            self.flush()
         self.obligations += 1
         self.labels[label] = self.labels.get(label, 0) + 1
         if not self._reached_this_path:
@@ -284,6 +298,41 @@ class Engine:
         """the current path itself is a violation (e.g. unexpected exception)"""
         self.check(False, label, exclude=exclude, detail=detail)
 
+    def flush(self):
+        """batch mode: decide all obligations collected on this path with one query for their
+        conjunction; on a model, report the first obligation that it falsifies"""
+        pend, self._pending = self._pending, []
+        if not pend:
+            return
+        n = len(pend)
+        self.obligations += n
+        for label, _, _ in pend:
+            self.labels[label] = self.labels.get(label, 0) + 1
+        if not self._reached_this_path:
+            self._reached_this_path = True
+            self.paths_reached += 1
+            if len(self.samples) < self.max_samples:
+                try:
+                    self.samples.append({"label": pend[0][0], "witness": self.model_values(self._get_model())})
+                except (PathAbort, Inconclusive):
+                    pass
+        conj = z3.simplify(z3.And(*[c for _, c, _ in pend]))
+        if z3.is_true(conj):
+            self.discharged += n
+            return
+        r = self._check(z3.Not(conj))
+        if r == z3.unsat:
+            self.discharged += n
+            return
+        if r == z3.unknown:
+            self.inconclusive.append("batched check (%d obligations, first %s): solver unknown" % (n, pend[0][0]))
+            return
+        m = self.solver.model()
+        for label, c, detail in pend:
+            if z3.is_false(m.eval(c, model_completion=True)):
+                raise Counterexample(label, self.model_values(m), detail)
+        raise Counterexample(pend[0][0], self.model_values(m), pend[0][2])
+
     def excl(self, d):
         """keep only the classes of findings that are listed (and re-confirmed) as known"""
         return {k: v for k, v in d.items() if k in self.active}
@@ -320,9 +369,11 @@ class Engine:
             self.sentinels = {}
             self.sentinel_terms = {}
             self._reached_this_path = False
+            self._pending = []
             self.solver.push()
             try:
                 fn(self)
+                self.flush()
             except PathAbort:
                 self.paths_aborted += 1
             except Inconclusive as e:
@@ -891,6 +942,11 @@ class ConcreteEngine:
     def check_ratio(self, r, num, den, label, exclude=None):
         # concrete replay: real floats; compare against the correctly rounded quotient
         self.check(abs(r - num / den) <= 1e-12 * max(1.0, abs(r)), label, exclude=exclude)
+
+    batch = False
+
+    def flush(self):
+        pass
 
     def check(self, cond, label="", exclude=None, detail=None):
         self.checked += 1
